@@ -67,4 +67,48 @@ def run(ctx, config):
                 if dbl is not None:
                     r.bad("K3:%s:double-completion" % f.name, dbl.where(), f.name, "the completion callback can run twice for one request")
     rules.append(r)
+
+    # ---- the per-RPC timer never outlives / overlaps the completion
+    r2 = Rule("C43-timer", "K3/K11", "the per-RPC timeout is cancelled before the reply is processed, and an armed timer is deleted before its wrapper is released", floor=2)
+    TIMER = "evrpc_request_wrapper.ev_timeout"
+    def is_arm(x):
+        return x.e[0] == "call" and callee_name(x.e) in ("event_add", "evtimer_add") and any(is_e(q, "fld") and q[2] == TIMER for q in walk(x.e[2][0]))
+    def is_del(x):
+        return x.e[0] == "call" and callee_name(x.e) in ("event_del", "evtimer_del", "event_del_block", "event_del_noblock") and any(is_e(q, "fld") and q[2] == TIMER for q in walk(x.e[2][0]))
+    # (i) the function registered as the http completion callback cancels the timer before anything else it does with the reply
+    cbs = set(rf["fn"] for rf in P.fnrefs if rf["ctx"].get("k") == "arg" and rf["ctx"]["callee"][0] == "fn" and rf["ctx"]["callee"][1] == "evhttp_request_new" and rf["file"] == "evrpc.c")
+    for name in sorted(cbs):
+        g = P.fn(name)
+        dels = [x for x in g.elems() if is_del(x)]
+        others = [x for x in g.calls() if not is_del(x) and (callee_name(x.e) in ("evrpc_pause_request", "evrpc_reply_done_closure", "evrpc_process_hooks", "evrpc_hook_associate_meta_") or callee_slot(x.e))]
+        ok = bool(dels) and all(any(g.pos_dominates(d.pos(), o.pos()) for d in dels) for o in others)
+        r2.inst(("reply-cb", name), {"fn": name, "timer_cancelled_at": [d.where() for d in dels], "dominates_all_reply_processing": ok})
+        if not ok:
+            r2.bad("K3:%s:timer-not-cancelled-first" % name, "%s:%d" % (g.file, g.line), name,
+                   "the reply is processed (hooks, pause, completion) while the request's timeout can still be pending: a paused reply can be timed out later, "
+                   "failing the connection and other RPCs on it")
+    if not cbs:
+        r2.brk("the http completion callback of evrpc requests was not found")
+    # (ii) within one function: armed, then released without a delete
+    for g in fns:
+        for a in [x for x in g.elems() if is_arm(x)]:
+            w = g.path_avoiding(a.pos(), is_free, is_del)
+            r2.inst(("arm", g.name, a.n), {"fn": g.name, "site": a.where(), "released_while_armed": repr(w) if w else None})
+            if w is not None:
+                r2.bad("K11:%s:armed-timer-freed" % g.name, w.where(), g.name,
+                       "the wrapper is released at line %d although its timeout armed at line %d may still be pending: the timer fires on freed memory" % (w.line, a.line))
+    rules.append(r2)
+
+    # ---- pausing can fail: its result decides whether the request is parked
+    r3 = Rule("C43-pause", "K12", "the result of evrpc_pause_request is tested: a request that could not be parked must still complete", floor=2)
+    from .. import effects
+    F = effects.Fail(P, fns)
+    for g in fns:
+        for el in g.calls("evrpc_pause_request"):
+            site = F.sites.get((g.name, el.n))
+            r3.inst((g.name, el.n), {"fn": g.name, "site": el.where(), "tested": site is not None})
+            if site is None:
+                r3.bad("K12:%s:unchecked:evrpc_pause_request" % g.name, el.where(), g.name,
+                       "evrpc_pause_request can fail (allocation); here its result is ignored and the function returns as if the request were parked: it never completes")
+    rules.append(r3)
     return rules
